@@ -32,7 +32,7 @@ func run(c *mon.Ctx) {
 	c.Floor("contract.some_missing", 1000)
 	c.Floor("contract.none_present", 500)
 	c.Floor("contract.empty_request", 200)
-	c.Stream("filter", c.N(20000, 500000), func(i int, r *gen.Rand) {
+	c.Stream("filter", c.N(20000, 15000000), func(i int, r *gen.Rand) {
 		p := ref.GenPMT(r, -1)
 		pmtPid := 32 + r.Intn(8000)
 		for k := range p.Streams {
@@ -247,7 +247,7 @@ func run(c *mon.Ctx) {
 		}
 	})
 
-	c.Stream("remove-streams", c.N(10000, 300000), func(i int, r *gen.Rand) {
+	c.Stream("remove-streams", c.N(10000, 6000000), func(i int, r *gen.Rand) {
 		p := ref.GenPMT(r, -1)
 		payload := append([]byte{0}, p.Section()...)
 		m, err := psi.NewPMT(payload)
